@@ -28,7 +28,7 @@ all: $(patsubst %,$(B)/bin/%,$(HARNESSES))
 
 $(B)/sim/%.o: /verif/sim/%.cc $(wildcard /verif/sim/*.h)
 	@mkdir -p $(dir $@)
-	$(CXX) $(STD) -O2 -g -Wall -Wno-unused-function -fno-omit-frame-pointer -c $< -o $@
+	$(CXX) $(STD) -O2 -g -Wall -Wno-unused-function -fno-omit-frame-pointer -isystem /root/miniconda/include -c $< -o $@
 
 $(B)/ship/lib/%.o: $(REPO)/src/%.cpp
 	@mkdir -p $(dir $@)
